@@ -60,6 +60,17 @@ CHECKS["C15"] = {
     "explanation": "Structural: every field of the ADT is matched against the accumulate / merge / scan code on all paths (loops entered once).",
 }
 
+CHECKS["C11"] = {
+    "module": "rules_c11",
+    "level": "other",
+    "quick_fs": ["default"],
+    "thorough_fs": ["default", "both"],
+    "technique": "MIR call-site rules: transfer-count use for partial-transfer std::io calls, Result discipline, byte-order pairing and seek-constant agreement of sibling methods",
+    "claim": "Decides the structural half of loss-freedom under I/O faults by reduction to std's contracts instead of enumerating fault schedules: in WordAdapter every std::io call that may legally transfer fewer bytes than asked (Read::read / Write::write) must use its returned count, while write_all/read_exact satisfy the rule by their documented contract (loop on short counts, retry Interrupted, error otherwise); every io::Result is propagated; write_word serialises exactly its argument with the byte order read_word deserialises; word_pos/set_word_pos divide/multiply by the same W::BYTES. Does not decide byte values.",
+    "note": "Trusted: std::io contracts of write_all/read_exact/seek/stream_position, rustc MIR, exporter.",
+    "explanation": "Structural rules over the five WordAdapter trait methods (all paths).",
+}
+
 NOT_APPLICABLE = {
     "C17": "a bijection over all values of six integer widths is a statement about (x>>1)^-(x&1) on 2^n values: the generic body is a chain of operator-trait calls with no table, pairing, ordering or ownership structure to check; proving the identity needs bit-vector reasoning (a solver) or running it, both outside static analysis (DESIGN.md section 6)",
 }
